@@ -17,6 +17,11 @@ type (
 	Locker    = sync.Locker
 )
 
+// One-shot helpers: not scheduling points (a sync.Once is not one either).
+func OnceFunc(f func()) func()                                 { return sync.OnceFunc(f) }
+func OnceValue[T any](f func() T) func() T                     { return sync.OnceValue(f) }
+func OnceValues[T1, T2 any](f func() (T1, T2)) func() (T1, T2) { return sync.OnceValues(f) }
+
 // Monitor, when set, is told about every acquisition/release (lock-discipline checks).
 var Monitor func(ev string, m interface{})
 
